@@ -510,7 +510,8 @@ class Fn(object):
             tgs = s.targets if isinstance(s, ast.Assign) else [s.target]
             return all((isinstance(t, ast.Name) and t.id in self.tr['ignore_locals']) or
                        (isinstance(t, ast.Subscript) and isinstance(t.value, ast.Name) and t.value.id in self.tr['ignore_locals']
-                        and ast.unparse(t) not in self.tr.get('subscript_events', {})) or
+                        and ast.unparse(t) not in self.tr.get('subscript_events', {})
+                        and t.value.id not in self.tr.get('keyed_store_events', {})) or
                        (isinstance(t, ast.Attribute) and isinstance(t.value, ast.Name) and t.value.id == 'self'
                         and t.attr in self.tr['ignore_fields']) for t in tgs)
         if isinstance(s, ast.Expr) and isinstance(s.value, ast.Call):
@@ -520,6 +521,18 @@ class Fn(object):
         if isinstance(s, ast.FunctionDef):
             return s.name in self.tr['ignore_locals']
         return False
+
+    def value_expr(self, e, env):
+        """an expression in value position: `a or b` on values is the first truthy operand (else the last)"""
+        if isinstance(e, ast.BoolOp) and isinstance(e.op, ast.Or) and ast.unparse(e) not in self.inputs:
+            parts = [self.expr(v_, env) for v_ in e.values]
+            if all(ty_ == 'V' and not b_ for (b_, _t, ty_) in parts):
+                term = parts[-1][1]
+                for (_b, t_, _ty) in reversed(parts[:-1]):
+                    term = '(if V.truthy %s then %s else %s)' % (t_, t_, term)
+                return [], term, 'V'
+            raise Unsupported('`or` of non-values in value position')
+        return self.expr(e, env)
 
     def is_assigned_input(self, s):
         return isinstance(s, ast.Assign) and len(s.targets) == 1 and isinstance(s.targets[0], (ast.Tuple, ast.Name)) \
@@ -578,6 +591,17 @@ class Fn(object):
             # x[key] = ... on a declared entry: an event (the value is not looked at)
             return pad + 'let trace := trace ++ [Event.%s]\n' % self.tr['subscript_events'][ast.unparse(s.targets[0])] + \
                 self.block(rest, env, ret, self_ty, indent)
+        if isinstance(s, ast.Assign) and len(s.targets) == 1 and isinstance(s.targets[0], ast.Subscript) \
+                and isinstance(s.targets[0].value, ast.Name) and s.targets[0].value.id in self.tr.get('keyed_store_events', {}) \
+                and isinstance(s.targets[0].slice, ast.Constant) and isinstance(s.targets[0].slice.value, str):
+            # d["key"] = e on a declared dict: an event with the key and the value
+            b_, t_, ty_ = self.value_expr(s.value, env)
+            if ty_ != 'V':
+                raise Unsupported('%s stores a %s' % (ast.unparse(s.targets[0]), ty_))
+            body = pad + 'let trace := trace ++ [Event.%s %s %s]\n' % (
+                self.tr['keyed_store_events'][s.targets[0].value.id], lean_str(s.targets[0].slice.value), t_) + \
+                self.block(rest, env, ret, self_ty, indent)
+            return self.wrap(b_, body, pad)
         if isinstance(s, ast.Raise) and isinstance(s.exc, ast.Name) and s.exc.id in self.tr.get('raise_events', {}):
             if self.in_loop:                                  # raise <declared local>
                 raise Unsupported('raise inside a loop')
@@ -837,6 +861,17 @@ class Fn(object):
             new = ast.Assign(targets=[s.target], value=ast.BinOp(left=ast.Name(id=s.target.id, ctx=ast.Load()),
                                                                    op=s.op, right=s.value))
             return self.block([new] + rest, env, ret, self_ty, indent)
+        if isinstance(s, ast.Expr) and isinstance(s.value, ast.Call) and isinstance(s.value.func, ast.Attribute) \
+                and s.value.func.attr == 'append' and isinstance(s.value.func.value, ast.Name) \
+                and env.get(s.value.func.value.id, '').startswith('List ') and len(s.value.args) == 1 \
+                and not s.value.keywords and not self.in_loop and not self.tr:
+            # xs.append(e) on a local list
+            x_ = s.value.func.value.id
+            b_, t_, ty_ = self.expr(s.value.args[0], env)
+            if 'List ' + ty_ != env[x_]:
+                raise Unsupported('%s.append of a %s' % (x_, ty_))
+            return self.wrap(b_, pad + 'let %s := %s ++ [%s]\n' % (lean_name(x_), lean_name(x_), t_) +
+                             self.block(rest, env, ret, self_ty, indent), pad)
         if isinstance(s, ast.Assert):
             b, t = self.cond(s.test, env)
             body = pad + 'if %s then\n%s\n%selse\n%s  none' % (t, self.block(rest, env, ret, self_ty, indent + 1), pad, pad)
@@ -1227,7 +1262,7 @@ def translate(spec, repo):
                 'assigned_input_events': u.get('assigned_input_events', {}),
                 'try_finally': u.get('try_finally'), 'refuse_try': u.get('refuse_try', False),
                 'subscript_events': u.get('subscript_events', {}), 'loop_events': u.get('loop_events', {}),
-                'raising_inputs': u.get('raising_inputs', {}),
+                'raising_inputs': u.get('raising_inputs', {}), 'keyed_store_events': u.get('keyed_store_events', {}),
                 'lock_release_events': u.get('lock_release_events', {}),
                 'units': dict((k_, v_) for k_, v_ in trace_units.items() if k_ != own_key)}))
             env = dict((p_, t) for p_, t in u['params'].items() if t != 'Opaque')
@@ -1290,7 +1325,7 @@ def translate(spec, repo):
                            ['(%s : %s)' % (lean_name(p_), lean_ty(t)) for p_, t in u['params'].items() if t != 'Opaque'])
             out.append('def %s %s : Option %s :=\n%s\n' % (
                 ('%s_%s' % (cls_name(u['class']), u['name'].lstrip('_'))) if u.get('class') else lean_name(u['name'].lstrip('_')),
-                sig, u['returns'], body))
+                sig, lean_ty_atom(u['returns']), body))
         elif kind == 'retry_loop':
             # `<state> = <int>`...; `while True: try: <one call>; return ... except A: ... except (B, C) as e: ...`:
             # a function of what the successive calls do (`outcome k`: which handler's class is raised, "" = returns,
